@@ -9,7 +9,7 @@ import yaml
 from common import S, enc_jv, run_batch, unS, work_dir
 
 MAIN = 'policy.yaml'
-DIRS = ['policy.d', 'second.d', 'missing.d']
+DIRS = ['missing0.d', 'policy.d', 'missing.d', 'second.d']
 
 
 class FsSim:
@@ -154,6 +154,14 @@ def mk_default(d):
     """d = (name, check_str, dep or None, scope)"""
     from oslo_policy import policy
     dep = None
+    if d[2] and len(d) > 4 and d[4] == 'legacy':
+        # the older declaration style: reason and release given on the RuleDefault
+        import warnings
+        with warnings.catch_warnings():
+            warnings.simplefilter('ignore')
+            dep = policy.DeprecatedRule(d[2][0], d[2][1])
+            return policy.RuleDefault(d[0], d[1], deprecated_rule=dep, scope_types=d[3] or None,
+                                      deprecated_reason='legacy reason', deprecated_since='L')
     if d[2]:
         dep = policy.DeprecatedRule(d[2][0], d[2][1], deprecated_reason='r', deprecated_since='s')
     return policy.RuleDefault(d[0], d[1], deprecated_rule=dep, scope_types=d[3] or None)
